@@ -195,3 +195,7 @@ def run(ctx, eng):
     cm.include(ctx, eng, 'C07', {'PAIR.local-reset'},
                'a stream the library resets itself stops being counted: the '
                'reset goes through the machine')
+    cm.include(ctx, eng, 'C06', {'FSM.step'},
+               'a stream the machine refuses is closed, whatever subclass of '
+               'ProtocolError says so: a refused stream left in its state '
+               'stays counted for good')
